@@ -11,7 +11,9 @@ from __future__ import annotations
 
 import random
 
-HEADER = '''from typing import List, Optional, Tuple, Dict, Iterator, Any
+HEADER = '''from typing import List, Optional, Tuple, Dict, Iterator, Any, Final
+
+BIG: Final = 1267650600228229401496703205376
 
 class Box:
     def __init__(self, item: object) -> None:
@@ -21,6 +23,29 @@ class Box:
 
 class Err(Exception):
     pass
+
+class Slot:
+    __deletable__ = ["item"]
+    item: object = None
+    count: int = 0
+
+class Acct:
+    def __init__(self, total: int, box: Box, owner: object) -> None:
+        self.total = total
+        self.box = box
+        self.owner = owner
+
+def set_total(ac: Acct, v: int) -> int:
+    ac.total = v
+    return 1
+
+def set_box(ac: Acct, x: object) -> int:
+    ac.box = Box(x)
+    return 1
+
+def set_slot(sl: Slot, x: object) -> int:
+    sl.item = x
+    return 1
 
 def raiser(x: object, do: bool) -> object:
     if do:
@@ -64,6 +89,9 @@ class FnGen:
         self.depth = 0
         self.in_finally = 0
         self.iterating: list[str] = []   # lists being iterated: never appended to (the loop would not end)
+        self.tuples: list[str] = []      # unboxed Tuple[object, int] locals
+        self.has_ac = False              # `ac = Acct(...)` / `sl = Slot()` created in the prologue
+        self.has_sl = False
 
     def fresh(self, p: str) -> str:
         self.nloc += 1
@@ -104,8 +132,95 @@ class FnGen:
         while budget > 0 and tries < 60:
             tries += 1
             before = len(out)
-            k = r.randrange(17)
-            if k == 16:
+            k = r.randrange(27)
+            if k == 17 and self.depth < 2:
+                # try × conditional assignment × raising calls on both sides of the join
+                self.depth += 1
+                u = self.fresh("u")
+                out.append(f"{ind}try:")
+                out.append(f"{ind}    if {self.cond()}:")
+                out.append(f"{ind}        {u}: object = " + r.choice([f"[{self.obj()}]", self.obj_expr(), f"Box({self.obj()})"]))
+                out.append(f"{ind}        raiser({self.obj()}, n == {r.randrange(4)})")
+                if r.random() < 0.5:
+                    out.append(f"{ind}    else:")
+                    out.append(f"{ind}        raiser({self.obj()}, n == {r.randrange(4)})")
+                out.append(f"{ind}    raiser({self.obj()}, n == {r.randrange(4)})")
+                out.append(f"{ind}    a = {u}")
+                if r.random() < 0.5:
+                    out.append(f"{ind}except Err:")
+                    out.append(f"{ind}    b = {self.obj()}")
+                else:
+                    out.append(f"{ind}finally:")
+                    out.append(f"{ind}    b = {self.obj()}")
+                self.depth -= 1
+                self.constructs.append("try-conditional-assign-raise")
+            elif k == 18 and self.has_ac:
+                out.append(ind + r.choice([f"ac.total += set_total(ac, BIG * 3 + n)", f"ac.total -= set_total(ac, BIG * 5 + n)",
+                                           f"ac.total += set_box(ac, {self.obj()})", "ac.total += n", "ac.total -= len(xs)"]))
+                self.constructs.append("augassign-attr")
+            elif k == 19 and self.has_ac:
+                c = r.randrange(5)
+                if c == 0:
+                    out.append(f"{ind}ac.box.item = {self.obj_expr()}")
+                elif c == 1:
+                    v = self.fresh("t")
+                    out.append(f"{ind}{v} = " + r.choice(["ac.box.item", "ident(ac.box.item)", "pick(ac.box.item, ac.owner, flag)"]))
+                    self.objs.append(v)
+                elif c == 2:
+                    out.append(f"{ind}ac.box = Box({self.obj()})")
+                elif c == 3:
+                    out.append(f"{ind}ac.box.count += 1")
+                else:
+                    out.append(f"{ind}ac.owner = {self.obj_expr()}")
+                self.constructs.append("nested-attr")
+            elif k == 20 and self.has_sl:
+                c = r.randrange(5)
+                if c == 0:
+                    out.append(f"{ind}sl.item = {self.obj_expr()}")
+                elif c in (1, 2):
+                    # delete on some paths, then read: AttributeError exactly when the slot is empty
+                    v = self.fresh("t")
+                    out.append(f"{ind}if {self.cond()}:")
+                    out.append(f"{ind}    del sl.item")
+                    out.append(f"{ind}{v} = " + r.choice(["ident(sl.item)", "[sl.item]", "pick(sl.item, a, flag)"]))
+                    self.objs.append(v)
+                elif c == 3:
+                    out.append(f"{ind}sl.count += set_slot(sl, {self.obj()})")
+                else:
+                    v = self.fresh("t")
+                    out.append(f"{ind}try:")
+                    out.append(f"{ind}    {v} = ident(sl.item)")
+                    out.append(f"{ind}except AttributeError:")
+                    out.append(f"{ind}    {v} = {self.obj()}")
+                    self.objs.append(v)
+                self.constructs.append("deletable-default-attr")
+            elif k == 21:
+                # reassign an existing local / parameter (in loops: a register reassigned on every iteration)
+                v = r.choice([x for x in self.objs if not x.startswith("x")] or ["a"])
+                out.append(f"{ind}{v} = {self.obj_expr()}")
+                self.constructs.append("reassign-local")
+            elif k == 22:
+                if self.tuples and r.random() < 0.6:
+                    tp = r.choice(self.tuples)
+                    c = r.randrange(3)
+                    if c == 0:
+                        out.append(f"{ind}{tp} = ({self.obj_expr()}, n + {r.randrange(3)})")
+                    elif c == 1:
+                        v = self.fresh("t")
+                        out.append(f"{ind}{v} = {tp}[0]")
+                        self.objs.append(v)
+                    else:
+                        out.append(f"{ind}{tp} = ({tp}[0], {tp}[1] + 1)")
+                elif self.depth == 0:
+                    tp = self.fresh("tp")
+                    out.append(f"{ind}{tp}: Tuple[object, int] = ({self.obj()}, n)")
+                    self.tuples.append(tp)
+                else:
+                    continue
+                self.constructs.append("unboxed-tuple")
+            elif k >= 23:
+                continue
+            elif k == 16:
                 # results that nobody uses
                 out.append(ind + r.choice([f"ident({self.obj()})", f"pair({self.obj()}, {self.obj()})", f"[{self.obj()}, {self.obj()}]",
                                            f"Box({self.obj()})", f"pick({self.obj()}, {self.obj()}, {self.cond()})",
@@ -246,10 +361,20 @@ class FnGen:
         return out
 
     def build(self) -> str:
-        body = self.stmts("    ", self.rng.randint(3, 8))
         r = self.rng
-        ret = r.choice([self.obj(), f"({self.obj()}, {self.obj()})", f"[{self.obj()}, {self.obj()}]",
-                        r.choice(self.boxes) if self.boxes else self.obj(), r.choice(self.lists)])
+        pro = []
+        if r.random() < 0.6:
+            pro.append("    ac = Acct(BIG + n, Box(a), b)")
+            self.has_ac = True
+        if r.random() < 0.5:
+            pro.append("    sl = Slot()")
+            self.has_sl = True
+        body = pro + self.stmts("    ", r.randint(3, 8))
+        rets = [self.obj(), f"({self.obj()}, {self.obj()})", f"[{self.obj()}, {self.obj()}]",
+                r.choice(self.boxes) if self.boxes else self.obj(), r.choice(self.lists)]
+        if self.has_ac:
+            rets += ["ac.total", "ac.box.item", "ac"]
+        ret = r.choice(rets)
         return f"def f{self.idx}{SIG}:\n" + "\n".join(body) + f"\n    return {ret}\n"
 
 
